@@ -306,6 +306,52 @@ class InfidelityMetric(Harness):
             S.prove("1-infidelity-equals-overlap", count == k)
 
 
+class InfidelityMixture(Harness):
+    """metrics.Infidelity.evaluate for a MixedStabilizer state: 1 - sum_i p_i F(target, T_i) with symbolic weights"""
+
+    weight = 50
+
+    def install(self):
+        from symnp import install as sinstall
+        sinstall.install()
+
+    def declare(self, S):
+        a = declare_clifford(S, 1, tag="A", destab_iphase=False)
+        b = declare_clifford(S, 1, tag="B", destab_iphase=False)
+        for sp in (a, b):
+            rows = O.rows_of(cells(sp["table"])[1:], cells(sp["phase"])[1:], 1)
+            S.assume(O.independent(rows))
+        w = S.real("w")
+        S.assume(w >= 0)
+        S.assume(w <= 1)
+        return {"a": a, "b": b, "w": w}
+
+    def body(self, S, spec):
+        from graphiq.metrics import Infidelity
+        from graphiq.state import QuantumState
+        from graphiq.backends.stabilizer.state import MixedStabilizer
+        from oracle import dm as D
+
+        w = spec["w"]
+        tgt = QuantumState(fresh_clifford(spec["a"]), rep_type="s")
+        flipped = {"n": 1, "table": spec["b"]["table"].copy(), "phase": spec["b"]["phase"].copy(), "iphase": None}
+        flipped["phase"][1] = 1 ^ flipped["phase"][1]
+        wf = w * 1.0 if not S.symbolic else w
+        mix = MixedStabilizer([(wf, fresh_clifford(spec["b"])), (1.0 - wf, fresh_clifford(flipped))])
+        st = QuantumState(1, rep_type="s", mixed=True)
+        st.rep_data = mix
+        val = Infidelity(tgt).evaluate(st, None)
+        rows_a = O.rows_of(cells(spec["a"]["table"])[1:], cells(spec["a"]["phase"])[1:], 1)
+        rows_b = O.rows_of(cells(spec["b"]["table"])[1:], cells(spec["b"]["phase"])[1:], 1)
+        # one qubit: F(a, b) = 1 if same Pauli same sign, 0 if same Pauli opposite sign, 1/2 otherwise; the flipped
+        # component has fidelity 1 - F
+        same_pauli = b_and(O.eq_bits(rows_a[0].x[0], rows_b[0].x[0]), O.eq_bits(rows_a[0].z[0], rows_b[0].z[0]))
+        same_sign = O.eq_bits(rows_a[0].hi, rows_b[0].hi)
+        for cond, f1 in ((b_and(same_pauli, same_sign), 1.0), (b_and(same_pauli, b_not(same_sign)), 0.0), (b_not(same_pauli), 0.5)):
+            want = 1 - (w * f1 + (1 - w) * (1 - f1))
+            S.prove(f"infidelity-is-1-minus-weighted-fidelity[F={f1}]", b_implies(cond, D.close(val, want, 1e-9)))
+
+
 def plan(tier):
     q = tier == "quick"
     jobs = []
@@ -327,6 +373,7 @@ def plan(tier):
         jobs.append((StabilizerEq(n=2, i=i, j=j), {}))
     jobs.append((Fidelity(n=1, symmetry=True), {}))
     jobs.append((InfidelityMetric(n=1), {}))
+    jobs.append((InfidelityMixture(), {}))
     for n in ([2, 3, 4] if q else [2, 3, 4, 5, 6]):
         jobs.append((RowSum(n=n, commuting=True), {}))
         jobs.append((RowSum(n=n, commuting=False), {}))
